@@ -445,7 +445,8 @@ func decodeKeyByBitmapUint8Stream(d *structDecoder, s *Stream) (*structFieldSet,
 					if err != nil {
 						return nil, "", err
 					}
-					cursor = s.cursor
+					// the buffer may have been refilled (and moved) meanwhile
+					_, cursor, p = s.stat()
 					for _, c := range chars {
 						curBit &= bitmap[keyIdx][largeToSmallTable[c]]
 						if curBit == 0 {
@@ -532,7 +533,8 @@ func decodeKeyByBitmapUint16Stream(d *structDecoder, s *Stream) (*structFieldSet
 					if err != nil {
 						return nil, "", err
 					}
-					cursor = s.cursor
+					// the buffer may have been refilled (and moved) meanwhile
+					_, cursor, p = s.stat()
 					for _, c := range chars {
 						curBit &= bitmap[keyIdx][largeToSmallTable[c]]
 						if curBit == 0 {
@@ -562,7 +564,7 @@ func decodeKeyCharByUnicodeRuneStream(s *Stream) ([]byte, error) {
 	const defaultOffset = 4
 	const surrogateOffset = 6
 
-	if s.cursor+defaultOffset >= s.length {
+	for s.cursor+defaultOffset >= s.length {
 		if !s.read() {
 			return nil, errors.ErrInvalidCharacter(s.char(), "escaped unicode char", s.totalOffset())
 		}
@@ -571,8 +573,10 @@ func decodeKeyCharByUnicodeRuneStream(s *Stream) ([]byte, error) {
 	r := unicodeToRune(s.buf[s.cursor : s.cursor+defaultOffset])
 	if utf16.IsSurrogate(r) {
 		s.cursor += defaultOffset
-		if s.cursor+surrogateOffset >= s.length {
-			s.read()
+		for s.cursor+surrogateOffset >= s.length {
+			if !s.read() {
+				break
+			}
 		}
 		if s.cursor+surrogateOffset >= s.length || s.buf[s.cursor] != '\\' || s.buf[s.cursor+1] != 'u' {
 			s.cursor += defaultOffset - 1
@@ -589,9 +593,13 @@ func decodeKeyCharByUnicodeRuneStream(s *Stream) ([]byte, error) {
 }
 
 func decodeKeyCharByEscapeCharStream(s *Stream) ([]byte, error) {
+	for s.buf[s.cursor] == nul {
+		if !s.read() {
+			return nil, errors.ErrInvalidCharacter(s.char(), "escaped char", s.totalOffset())
+		}
+	}
 	c := s.buf[s.cursor]
 	s.cursor++
-RETRY:
 	switch c {
 	case '"':
 		return []byte{'"'}, nil
@@ -611,11 +619,6 @@ RETRY:
 		return []byte{'\t'}, nil
 	case 'u':
 		return decodeKeyCharByUnicodeRuneStream(s)
-	case nul:
-		if !s.read() {
-			return nil, errors.ErrInvalidCharacter(s.char(), "escaped char", s.totalOffset())
-		}
-		goto RETRY
 	default:
 		return nil, errors.ErrUnexpectedEndOfJSON("struct field", s.totalOffset())
 	}
